@@ -55,7 +55,7 @@ func c02R1(c *Ctx, r *Report) {
 		return
 	}
 	maxPtr, ok := c.constInt("maxCompressionPointers")
-	r.check(ok && maxPtr >= 1 && maxPtr <= 126, "C02.R1.pointer-loop", "maxCompressionPointers", "", fmt.Sprint(maxPtr), "maxCompressionPointers = %d; a 255-octet name cannot need more than 126 pointers", maxPtr)
+	r.check(ok && maxPtr >= 1 && maxPtr <= 255, "C02.R1.pointer-loop", "maxCompressionPointers", "", fmt.Sprint(maxPtr), "maxCompressionPointers = %d: the hop limit must be a small constant (a 255-octet name cannot need more than 127 pointers)", maxPtr)
 	// the main loop header: the block with the phis named ptr and budget
 	var head *ssa.BasicBlock
 	var ptr, budget *ssa.Phi
@@ -114,7 +114,7 @@ func c02R1(c *Ctx, r *Report) {
 			bounded := false
 			for _, f := range facts {
 				_, hi, _, hasHi := intervalFromFact(f, isValue(pe))
-				if hasHi && hi <= 126 {
+				if hasHi && hi <= 255 {
 					bounded = true
 				}
 			}
